@@ -282,6 +282,28 @@ pub fn build(case: &Value) -> Sys {
             spd = (0..n).all(|i| a[i][i] > 0.0 && (0..n).all(|j| a[i][j] == a[j][i]));
             trip = trip_of(&a);
         }
+        // strongly non-normal, strictly dominant upwind stencils: tridiag(-a, d, -c) with a/c = ra, d = a + c + margin
+        // ("tri"), the same plus second off-diagonals -a/4, -c/4 ("penta"), and the 5-point upwind convection-diffusion stencil on an
+        // nx x ny grid (west -(1+p), east -1, south -(1+q), north -1, diagonal 4 + p + q + margin; p = ra - 1, q = rb - 1) ("grid")
+        "upw" => {
+            claim = true;
+            let mg = geti(case, "mg10") as f64 / 10.0;
+            let ra = geti(case, "ra") as f64;
+            let mut a = vec![vec![0.0f64; n]; n];
+            match gets(case, "shape") {
+                "tri" => { let c = 1.0; let lo = ra * c; for i in 0..n { a[i][i] = lo + c + mg; if i > 0 { a[i][i - 1] = -lo; } if i + 1 < n { a[i][i + 1] = -c; } } }
+                "penta" => { let c = 1.0; let lo = ra * c; for i in 0..n { a[i][i] = 1.25 * (lo + c) + mg; if i > 0 { a[i][i - 1] = -lo; } if i + 1 < n { a[i][i + 1] = -c; } if i > 1 { a[i][i - 2] = -lo / 4.0; } if i + 2 < n { a[i][i + 2] = -c / 4.0; } } }
+                "grid" => { let nx = getu(case, "nx"); let ny = n / nx; let p = ra - 1.0; let q = geti(case, "rb") as f64 - 1.0;
+                    for iy in 0..ny { for ix in 0..nx { let r = iy * nx + ix; a[r][r] = 4.0 + p + q + mg;
+                        if ix > 0 { a[r][r - 1] = -(1.0 + p); } if ix + 1 < nx { a[r][r + 1] = -1.0; }
+                        if iy > 0 { a[r][r - nx] = -(1.0 + q); } if iy + 1 < ny { a[r][r + nx] = -1.0; } } } }
+                other => { eprintln!("TOOL-ERROR unknown upwind shape {}", other); std::process::exit(2) }
+            }
+            if geti(case, "flip") == 1 { let old = a.clone(); for i in 0..n { for j in 0..n { a[i][j] = old[j][i]; } } }     // downwind-ordered twin (transpose)
+            let sc = if rng.gen_bool(0.5) { 1.0 } else { pow10(rng, -3.0, 3.0) };
+            for r in a.iter_mut() { for v in r.iter_mut() { *v *= sc; } }
+            trip = trip_of(&a);
+        }
         // integer-valued (times a power of two) dominant systems with an integer solution: A x* = b holds exactly in f64
         "spdi" | "ddi" => {
             claim = true; spd = fam == "spdi";
@@ -355,10 +377,13 @@ pub fn build(case: &Value) -> Sys {
     let rhs = gets(case, "rhs");
     let scale = 10f64.powi(geti(case, "rhs_e") as i32);
     let xstar: Vec<f64> = match &xint { Some(x) => x.clone(), None => (0..n).map(|_| rng.gen_range(-1.0..=1.0) * scale).collect() };
-    let b: Vec<f64> = match rhs { "zero" => vec![0.0; n], "rand" if xint.is_none() => (0..n).map(|_| rng.gen_range(-1.0..=1.0) * scale).collect(), _ => matvec_dense(&a, &xstar) };
+    let b: Vec<f64> = match rhs { "zero" => vec![0.0; n], "rand" if xint.is_none() => (0..n).map(|_| rng.gen_range(-1.0..=1.0) * scale).collect(),
+        "ones" if xint.is_none() => vec![scale; n],
+        "sin" if xint.is_none() => (0..n).map(|k| ((k + 1) as f64 * std::f64::consts::PI / (n + 1) as f64).sin() * scale).collect(),
+        "e1" if xint.is_none() => (0..n).map(|k| if k == 0 { scale } else { 0.0 }).collect(), _ => matvec_dense(&a, &xstar) };
     // random guesses are drawn on the scale of the solution: ||b||_inf over the geometric mean of |a_ii| for a random
     // right-hand side, the scale of x* otherwise
-    let xs = if xint.is_some() { xscale } else if rhs == "rand" {
+    let xs = if xint.is_some() { xscale } else if matches!(rhs, "rand" | "ones" | "sin" | "e1") {
         let dg: Vec<f64> = (0..n).map(|i| a[i][i].abs()).filter(|v| *v > 0.0).collect();
         let gm = if dg.is_empty() { 1.0 } else { (dg.iter().map(|v| v.ln()).sum::<f64>() / dg.len() as f64).exp() };
         b.iter().fold(0.0f64, |m, v| m.max(v.abs())) / gm
@@ -373,6 +398,11 @@ pub fn build(case: &Value) -> Sys {
     Sys { b, x0, ..tmp }
 }
 
+/// non-normality index of an upwind case: n * log10(a/c) / 2 (0 for every other family)
+fn upw_index(case: &Value) -> f64 {
+    if gets(case, "fam") != "upw" || gets(case, "shape") == "grid" { return 0.0; }
+    geti(case, "n") as f64 * (geti(case, "ra") as f64).log10() / 2.0
+}
 fn tol_of(case: &Value) -> f64 { geti(&case["tol"], "m") as f64 / 10f64.powi(geti(&case["tol"], "e") as i32) }
 
 // ------------------------------------------------------------------ exec
@@ -458,9 +488,18 @@ fn exec_c09(case: &Value, s: &Sys, run: Runner, out: &mut Out) {
     e["cgb"] = json!(if cgb.is_finite() && cgb < SAT as f64 { cgb as i64 } else { SAT });
     e["kap"] = json!(units(s.kap, 1.0)); e["agree_units"] = json!(agree);
     e["claimed"] = json!(s.kap > 0.0);
+    // parameter window of the known finding "two-sided Lanczos solvers on strongly non-normal upwind stencils": tridiag(-a, d, -c)
+    // with (a/c)^(n/2) >= 10^14.2 (the similarity that symmetrises the stencil has condition number (a/c)^((n-1)/2) ~ 1/eps)
+    e["harsh"] = json!(upw_index(case) >= 14.2 && gets(case, "shape") == "tri");
     // classifies one failure mode for known_findings.json: not Ok although the iteration stagnated with a true relative
     // residual within 100 x of a tolerance <= 5e-11 (attainable-accuracy stall), as opposed to divergence / breakdown / slow convergence
-    e["near"] = json!(!r.ok && !r.panic && fin && tol <= 5.0e-11 && true_res(&a, &s.b, &x) / nb <= 100.0 * tol);
+    // (on the strongly non-normal family "upw" the stall level is higher: observed 1.6e-10 and 2.0e-10 at tol = 1e-10)
+    let tol_near = if gets(case, "fam") == "upw" { 2.0e-10 } else { 5.0e-11 };
+    e["near"] = json!(!r.ok && !r.panic && fin && tol <= tol_near && true_res(&a, &s.b, &x) / nb <= 100.0 * tol);
+    if gets(case, "fam") == "upw" {      // the parameters of the stencil travel with the event (narrow keys for known findings)
+        for f in ["shape", "rhs"] { e[f] = json!(gets(case, f)); }
+        for f in ["ra", "rb", "mg10", "flip", "rhs_e"] { e[f] = json!(geti(case, f)); }
+    }
     out.ev(e);
     // conformance notes (not guards): the exact iterates of TLC's rational CG against the real CG / BiCG iterates
     if let (Some(it), true) = (case.get("iters"), matches!(kind, "cg" | "bicg")) {
@@ -622,6 +661,37 @@ fn gen_struct(quick: bool, rng: &mut StdRng, push: &mut dyn FnMut(Value)) {
     }
 }
 
+/// strongly non-normal upwind stencils (C09 convergence clause, BiCG / BiCGSTAB / QMR).  Strict window: index n*log10(a/c)/2 <= 13.6
+/// (half of the cases within 6 orders of the top of the window); plus a few cases in the window of the known finding (index >= 14.2)
+fn gen_upw(quick: bool, rng: &mut StdRng, push: &mut dyn FnMut(Value)) {
+    let ratios = [3i64, 4, 5, 8];
+    let rhss = ["ones", "sin", "ones", "sin", "e1", "rand"];
+    let n_strict = if quick { 700 } else { 8000 };
+    let n_harsh = if quick { 40 } else { 400 };
+    for i in 0..(n_strict + n_harsh) {
+        let (kind, itol) = KINDS[1 + i % 4];
+        let ra = ratios[(i / 4) % 4];
+        let lg = (ra as f64).log10();
+        let harsh = i >= n_strict;
+        let shape = if harsh { "tri" } else { ["tri", "tri", "penta", "grid"][(i / 16) % 4] };
+        let mut c = json!({"mode": "c09", "fam": "upw", "shape": shape, "ra": ra, "rb": ([1, 3, 8][rng.gen_range(0..3)]), "mg10": ([10, 5, 1][rng.gen_range(0..3)]), "flip": rng.gen_range(0..2),
+                           "seed": rng.gen_range(0..1i64 << 30), "kind": kind, "itol": itol, "budget": 2000, "tol": rand_tol(rng, 6, 10),
+                           "rhs": (rhss[rng.gen_range(0..rhss.len())]), "rhs_e": rng.gen_range(-8..=8), "guess": if rng.gen_range(0..5) < 3 { "zero" } else { "random" }, "nx": 0});
+        if shape == "grid" {
+            let nx = rng.gen_range(3..=8usize); let ny = rng.gen_range((25 + nx - 1) / nx..=60 / nx);
+            c["nx"] = json!(nx); c["n"] = json!(nx * ny);
+        } else if harsh {
+            let nmin = (28.4 / lg).ceil() as usize;          // index >= 14.2
+            c["n"] = json!(rng.gen_range(nmin.min(60)..=60)); c["rhs"] = json!(["ones", "sin"][rng.gen_range(0..2)]); c["guess"] = json!("zero");
+        } else {
+            let nmax = ((27.2 / lg).floor() as usize).min(60).max(30);      // index <= 13.6
+            let n = if rng.gen_bool(0.5) { rng.gen_range(nmax.saturating_sub(6).max(30)..=nmax) } else { rng.gen_range(30..=nmax) };
+            c["n"] = json!(n);
+        }
+        push(c);
+    }
+}
+
 /// sequences on one Sparse object (mode seq08 / seq09): two in-place mutations, all solvers after each
 fn gen_seq(quick: bool, mode: &str, rng: &mut StdRng, push: &mut dyn FnMut(Value)) {
     let muts = ["over_diag", "over_off", "new", "scale", "transpose"];
@@ -664,7 +734,8 @@ pub fn gen(tier: &str, seed: u64, out: &mut Out) {
     let mut cid = 0i64;
     let mut cases: Vec<Value> = vec![];
     { let mut push = |mut c: Value| { cid += 1; c["cid"] = json!(cid); c["suite"] = json!("krylov"); cases.push(c); };
-      if mode != "c09" { let mut r = rng(seed, 8); gen_c08(quick, &mut r, &mut push); gen_struct(quick, &mut r, &mut push); gen_seq(quick, "seq08", &mut r, &mut push); }
-      if mode != "c08" { let mut r = rng(seed, 9); gen_c09(quick, &mut r, &mut push); gen_seq(quick, "seq09", &mut r, &mut push); } }
+      if mode != "c09" && mode != "upw" { let mut r = rng(seed, 8); gen_c08(quick, &mut r, &mut push); gen_struct(quick, &mut r, &mut push); gen_seq(quick, "seq08", &mut r, &mut push); }
+      if mode == "upw" { let mut r = rng(seed, 10); gen_upw(quick, &mut r, &mut push); }
+      else if mode != "c08" { let mut r = rng(seed, 9); gen_c09(quick, &mut r, &mut push); gen_seq(quick, "seq09", &mut r, &mut push); let mut r = rng(seed, 10); gen_upw(quick, &mut r, &mut push); } }
     for c in &cases { out.raw(c); }
 }
